@@ -12,7 +12,8 @@ SHARD = 200
 MAXLEN = {"quick": 6, "thorough": 8, "search": 7}
 RULE = ("every front/on/behind sign sequence of length 0..6 (quick) / 0..8 (thorough) x open/closed on an exact plane "
         "(axis-aligned or 22-bit dyadic normal, half-integer offsets, power-of-two scale) with distinct vertices, "
-        "vertices 1..5 rounding steps off an axis plane next to the run (108 patterns x open/closed), integer-dtype "
+        "vertices 1..5 rounding steps off an axis plane next to the run (108 patterns x open/closed), vertices within "
+        "rounding error of an OBLIQUE plane next to the run (264 in quick; sign-independent clauses only), integer-dtype "
         "vertex arrays, scales 2^-30..2^30 also in quick, "
         "plus seeded random polylines (<= 30 vertices, rational unit normals, repeated vertices, wrapped runs) and "
         "single-segment calls of intersect_segment_with_plane (in range, out of range, parallel, degenerate); "
@@ -25,12 +26,21 @@ TRUSTED = ["Coq 8.16.1 kernel, vm_compute for the correspondence evaluation",
            "coq/Agree.v agreement relation (tolerance 1e-9 relative to the input magnitude; sign sequences compared "
            "only when every |signed distance| > 1e-8 * magnitude unless arithmetic is exact)",
            "NumPy, vg"]
-CASE_IMPORTS = [("PW.model", "M_plane"), ("PW.model", "M_polyline_base"), ("PW.model", "M_polyline_slice")]
-ASSUMPTIONS = ["theorems are about exact real arithmetic; vertices within rounding error of the plane are covered only "
-               "by the sampled correspondence (their sign is whatever binary64 computes)",
-               "the closed-polyline model and theorems describe the code with fixes/C06-closed-slice.diff applied"]
+CASE_IMPORTS = [("PW.model", "M_plane"), ("PW.model", "M_polyline_base"), ("PW.model", "M_polyline_slice"),
+           ("PW.model", "M_polyline_slice_spec")]
+# theorems that only restate a definition of the specification (closed by reflexivity)
+DEFINITIONAL = ["C06_extension_points"]
+ASSUMPTIONS = ["theorems are about exact real arithmetic. For vertices within rounding error of the plane (their side is "
+               "whatever binary64 computes) nothing is proved: the sign-independent clauses (finite rows, not behind beyond "
+               "rounding, only ValueError, open result) are checked on the sampled near_plane (axis-aligned, exact) and "
+               "near_oblique streams; the classification-dependent clauses are not judged for them",
+               "the model and theorems describe the code with fixes/C06-closed-slice.diff and "
+               "fixes/C06-crossing-from-signed-distances.diff applied"]
 
-IMPORTS = [("PW.model", "M_plane"), ("PW.model", "M_polyline_base"), ("PW.model", "M_polyline_slice")]
+IMPORTS = [("PW.model", "M_plane"), ("PW.model", "M_polyline_base"), ("PW.model", "M_polyline_slice"),
+           ("PW.model", "M_polyline_slice_spec")]
+# theorems that only restate a definition of the specification (closed by reflexivity)
+DEFINITIONAL = ["C06_extension_points"]
 
 
 def kernels():
@@ -148,8 +158,8 @@ def _slice_kernels():
                      "%s\n%s\n  split.\n  {\n%s"
                      "    rewrite ?crossing_row_is_point by (first [left; split; assumption | right; split; assumption]). reflexivity. }\n"
                      "  cbv [plane_sd sd_eq plane_equation eq_normal ea eb ec ed pref pnormal vdot vx vy vz] in *; rops.\n"
-                     "  unfold {T}, crossing, crossing_t, xsect_t. cbv zeta.\n"
-                     "  cbv [flat_map xrow_coords app vlist vadd vscale vsub vdot vx vy vz pref pnormal]; rops.\n"
+                     "  unfold {T}, crossing, crossing_t. cbv zeta.\n"
+                     "  cbv [flat_map xrow_coords app vlist vadd vscale vsub vdot vx vy vz pref pnormal plane_sd sd_eq plane_equation eq_normal ea eb ec ed]; rops.\n"
                      "  list_eq ltac:(first [reflexivity | ring | (field; nz)]). Qed."
                      % (PL, poly, rows, rows, "\n".join(sd_facts), "\n".join(sign_facts), evalm))
             expect = None
@@ -243,8 +253,42 @@ def _near_plane_cases(rng, tier):
     return cases
 
 
+def _near_oblique_cases(rng, tier):
+    """Oblique (non-dyadic) unit normals; the vertices marked `n` are projections of random points onto the plane,
+    nudged by 0..3 rounding steps: their computed signed distance is a few 1e-16 with whatever sign binary64 gives.
+    Their classification is not judged (exact=False, inside the band); finiteness, not-behind, ValueError-only are."""
+    cases = []
+    pats = ["nFn", "nFFn", "BnFnB", "nFB", "BFn", "FFn", "nFF", "nnFFnn", "FnF", "nFnB", "OFn"]
+    reps = 24 if tier == "quick" else (120 if tier == "thorough" else 60)
+    for _ in range(reps):
+        for pat in pats:
+            nrm = np.array([rng.uniform(-1, 1) for _ in range(3)])
+            if np.linalg.norm(nrm) < 0.2:
+                continue
+            nrm = nrm / np.linalg.norm(nrm)
+            scale = 2.0 ** rng.randint(-20, 20) if rng.random() < 0.3 else 1.0
+            ref = np.array([rng.uniform(-8, 8) for _ in range(3)]) * scale
+            vs = []
+            for ch in pat:
+                p = ref + np.array([rng.uniform(-8, 8) for _ in range(3)]) * scale
+                sd = float(np.dot(p - ref, nrm))
+                if ch == "F":
+                    p = p - sd * nrm + rng.uniform(0.5, 3) * scale * nrm
+                elif ch == "B":
+                    p = p - sd * nrm - rng.uniform(0.5, 3) * scale * nrm
+                else:
+                    p = p - sd * nrm
+                    if ch == "n":
+                        for j in range(3):
+                            p[j] = _steps(float(p[j]), rng.randint(0, 3), up=rng.random() < 0.5)
+                vs.append([float(x) for x in p])
+            cases.append({"kind": "near_oblique", "exact": False, "closed": rng.random() < 0.5, "ref": [float(x) for x in ref],
+                          "normal": [float(x) for x in nrm], "v": vs})
+    return cases
+
+
 def gen_cases(rng, n, tier):
-    cases = _near_plane_cases(rng, tier)
+    cases = _near_plane_cases(rng, tier) + _near_oblique_cases(rng, tier)
     if tier != "search" or True:
         for k in range(0, MAXLEN[tier] + 1):
             for signs in itertools.product((-1, 0, 1), repeat=k):
@@ -294,17 +338,30 @@ def gen_cases(rng, n, tier):
                 cases.append({"kind": "int_dtype", "exact": True, "closed": closed, "ref": ref, "normal": nrm, "v": vs,
                               "int": True})
         elif u < 0.75:
-            # generic plane (rational unit normal, not exact in binary64), grid vertices
-            nrm = np.array([float(x) for x in rational_unit_normal(rng)])
-            nrm = list(nrm / np.linalg.norm(nrm))
-            ref = [x * scale for x in grid_vec(rng)]
+            # generic plane (oblique unit normal, nothing exact in binary64); mostly one run (possibly wrapped), sides
+            # clear of the rounding band so that the whole specification is judged
+            nrm = np.array([float(x) for x in rational_unit_normal(rng)]) if rng.random() < 0.5 else \
+                np.array([rng.uniform(-1, 1) for _ in range(3)]) + np.array([0.0, 0.0, 1.5])
+            nrm = nrm / np.linalg.norm(nrm)
+            ref = np.array([x * scale for x in grid_vec(rng)])
             k = rng.randint(2, 30)
-            vs, cur = [], grid_vec(rng)
-            for _ in range(k):
-                step = grid_vec(rng, -2, 2, 2)
-                cur = [c + s for c, s in zip(cur, step)]
-                vs.append([x * scale for x in cur])
-            cases.append({"kind": "generic", "exact": False, "closed": closed, "ref": ref, "normal": nrm, "v": vs})
+            if rng.random() < 0.8:
+                a0, b0 = sorted(rng.sample(range(k + 1), 2))
+                signs = [1 if a0 <= j < b0 else -1 for j in range(k)]
+                r0 = rng.randrange(k)
+                signs = signs[r0:] + signs[:r0]
+            else:
+                signs = [rng.choice([1, -1]) for _ in range(k)]
+            vs = []
+            for sgn in signs:
+                p = ref + np.array([rng.uniform(-4, 4) for _ in range(3)]) * scale
+                p = p - float(np.dot(p - ref, nrm)) * nrm + sgn * rng.uniform(0.3, 3) * scale * nrm
+                vs.append([float(x) for x in p])
+            if rng.random() < 0.25 and k >= 2:
+                j = rng.randrange(k - 1)
+                vs[j + 1] = list(vs[j])  # repeated vertex
+            cases.append({"kind": "generic", "exact": False, "closed": closed, "ref": [float(x) for x in ref],
+                          "normal": [float(x) for x in nrm], "v": vs})
         else:
             # one segment against an axis-aligned plane: dyadic t, in range / out of range / parallel / degenerate
             ax = rng.randrange(3)
@@ -414,12 +471,40 @@ def expected_slice(ref, nrm, vs, closed, exact):
     return ("ok", pts, run, before is not None, mag, sds)
 
 
+def _sign_independent(c, o, ref, nrm, vs):
+    """only ValueError may be raised; a returned polyline is open, finite, nowhere behind the plane beyond rounding,
+    made of at least one vertex; the arguments are untouched and a second call agrees"""
+    if "raise" in o:
+        return None if o["raise"] == "ValueError" else "raised %s (%s); only ValueError is allowed" % (o["raise"], o.get("msg"))
+    if o["is_closed"]:
+        return "result is a closed polyline"
+    if not o["args_unchanged"]:
+        return "input vertices were modified"
+    if not o["second_call_same"]:
+        return "a second call on the same polyline gave a different answer"
+    mag = max([1] + [abs(x) for x in ref] + [abs(x) for p in vs for x in p])
+    for i, r in enumerate(o["v"]):
+        if any(x != x or x in (float("inf"), float("-inf")) for x in r):
+            return "row %d is not finite: %r" % (i, r)
+        sd = _dot([Fr(a) - b for a, b in zip(r, ref)], nrm)
+        if sd < -Fr(1, 10 ** 8) * mag:
+            return "row %d is behind the plane (signed distance %g)" % (i, float(sd))
+    if len(o["v"]) == 0:
+        return "returned an empty polyline"
+    return None
+
+
 def oracle(c, o):
     if c["kind"] == "xsect":
         if "raise" in o:
             return "intersect_segment_with_plane raised %s" % o["raise"]
         return None
     ref, nrm, vs = _F(c["ref"]), _F(c["normal"]), [_F(p) for p in c["v"]]
+    # clauses that do not depend on how the vertices are classified are judged first, for every case - also when a
+    # vertex is within rounding error of the plane and its side is whatever binary64 computes
+    bad = _sign_independent(c, o, ref, nrm, vs)
+    if bad:
+        return bad
     exp = expected_slice(ref, nrm, vs, c["closed"], c["exact"])
     if exp[0] == "undecided":
         return None
